@@ -115,8 +115,15 @@ def op_strategy(draw):
 def strategy(tier):
     return st.fixed_dictionaries({
         "raisers": st.lists(st.sampled_from(["static", "any", "otc", "obs"]), max_size=2, unique=True),
+        # two object-level handlers registered without a name; the first may remove itself during its first call
+        "object_level": st.sampled_from([None, None, "plain", "oneshot", "oneshot-raising"]),
         "ops": st.lists(op_strategy(), min_size=1, max_size=30),
     })
+
+
+def log_has_first_alive(log, ol_state, alive_before):
+    """The one-shot handler is expected for a change iff it was still registered when the change happened."""
+    return alive_before
 
 
 def run(case, ctx):
@@ -137,9 +144,27 @@ def run(case, ctx):
     for nm in NAMES:
         o.on_trait_change(otc, nm)
         o.observe(obs, nm)
+    ol = case.get("object_level")
+    ol_state = {"first_alive": True}
+    if ol:
+        def ol_first(obj, name, old, new):
+            if name in NAMES:
+                log.append(("ol1", name, old, new))
+                if ol != "plain" and ol_state["first_alive"]:
+                    ol_state["first_alive"] = False
+                    obj.on_trait_change(ol_first, remove=True)
+                    if ol == "oneshot-raising":
+                        raise RuntimeError("boom")
+
+        def ol_second(obj, name, old, new):
+            if name in NAMES:
+                log.append(("ol2", name, old, new))
+        o.on_trait_change(ol_first)
+        o.on_trait_change(ol_second)
+        ctx.label("object-level:" + ol)
     push_exception_handler(handler=lambda *a: None, reraise_exceptions=False, main=True)
     obs_push(handler=lambda e: None, reraise_exceptions=False)
-    interesting = bool(raisers)
+    interesting = bool(raisers) or bool(ol)
     if raisers:
         ctx.label("raising-handler")
     try:
@@ -168,6 +193,7 @@ def run(case, ctx):
             else:
                 before = Undefined
             quiet = op in ("setq", "setq_kw")
+            alive_before = ol_state["first_alive"]
             try:
                 if op == "set":
                     setattr(o, nm, v)
@@ -196,6 +222,9 @@ def run(case, ctx):
                 if n2 != nm:
                     ctx.fail("event/wrong-name", "handler called for %s while assigning %s" % (n2, nm))
                 by.setdefault(mech, []).append((old, new))
+            first_was_alive = alive_before if ol else False
+            ol1 = len(by.pop("ol1", []))
+            ol2 = len(by.pop("ol2", []))
             counts = {m: len(by.get(m, [])) for m in ("static", "any", "otc", "obs")}
             if quiet:
                 interesting = True
@@ -228,6 +257,15 @@ def run(case, ctx):
                     ctx.fail("count/mechanisms-disagree", "%r: %s" % (counts, what))
             elif any(c != exp for c in counts.values()):
                 ctx.fail("count/wrong", "expected %d call(s) per handler, got %r: %s (after %r)" % (exp, counts, what, after))
+            if ol and exp is not None and not quiet:
+                # handlers registered when the change happened are each called once, also when one of them
+                # un-registers itself (or raises) while being dispatched
+                want1 = exp if (ol == "plain" or log_has_first_alive(log, ol_state, first_was_alive)) else 0
+                if ol2 != exp:
+                    ctx.fail("count/object-level", "second object-level handler called %d time(s), expected %d (first handler %s): %s"
+                             % (ol2, exp, ol, what))
+                if ol1 != want1:
+                    ctx.fail("count/object-level", "first object-level handler called %d time(s), expected %d: %s" % (ol1, want1, what))
             for m, lst in by.items():
                 for (old, new) in lst:
                     if kind == "event":
